@@ -46,6 +46,12 @@ type caseT struct {
 	NSplits  int        `json:"nsplits"`
 	Versions []versionT `json:"versions"`
 	Orders   [][]int    `json:"orders"` // arrival orders (permutations of split indexes)
+	// Retried: index+1 of a split whose first Upload fails (its first file-list write is refused once) and is
+	// called again on the same Split object; 0: none
+	Retried int `json:"retried_split,omitempty"`
+	// Batch: page size of the split listing done by the commit (0: default 1024). Small pages put page boundaries
+	// where they fall with hundreds of splits at the default size.
+	Batch int `json:"commit_list_page,omitempty"`
 }
 
 var paths = []string{"f0", "d/f1", "d/f2", "d/e/f3", "f4 x", "ü/f5"}
@@ -76,6 +82,10 @@ func drawCase(t *rapid.T) caseT {
 	norders := rapid.IntRange(2, 3).Draw(t, "norders")
 	if hx.Thorough() {
 		norders = rapid.IntRange(2, 4).Draw(t, "norders_t")
+	}
+	c.Batch = rapid.SampledFrom([]int{0, 0, 0, 1, 2, 3, 4, 5, 8}).Draw(t, "commit_page")
+	if rapid.IntRange(0, 3).Draw(t, "retried") == 0 {
+		c.Retried = 1 + rapid.IntRange(0, c.NSplits-1).Draw(t, "retried_split")
 	}
 	if c.NSplits == 1 {
 		norders = 1
@@ -161,6 +171,17 @@ func prepare(sc *hx.Scratch, c caseT) (*hx.Env, string, map[string][]verT, error
 		if err := tree.Write(dir); err != nil {
 			return nil, "", nil, err
 		}
+		if c.Retried == s+1 {
+			f := &memstore.Fault{Op: memstore.OpPut, KeySub: "/bundle-files-", Nth: 1, Times: 1}
+			retried, err := hx.SplitAddRetried(v.Stores, repo, d.DiamondID, splitName(s), dir, func() { v.VMeta.AddFault(f) }, func() { v.VMeta.ClearFaults() })
+			if err != nil {
+				return nil, "", nil, fmt.Errorf("split add %d (retried=%v on the same Split object after a refused file-list write): %v", s, retried, err)
+			}
+			if retried {
+				stats.Count("split_upload_retried_on_same_object", 1)
+			}
+			continue
+		}
 		if _, err := hx.SplitAdd(v.Stores, repo, d.DiamondID, splitName(s), dir); err != nil {
 			return nil, "", nil, fmt.Errorf("split add %d: %v", s, err)
 		}
@@ -168,6 +189,7 @@ func prepare(sc *hx.Scratch, c caseT) (*hx.Env, string, map[string][]verT, error
 	// rewrite the upload times in the stored split file lists
 	base := time.Date(2021, 3, 4, 5, 6, 7, 0, time.UTC)
 	vers := map[string][]verT{}
+	listed := map[string]bool{}
 	for _, k := range env.VMeta.RawKeys() {
 		if !strings.Contains(k, "/splits/") || !strings.Contains(k, "/bundle-files-") {
 			continue
@@ -190,6 +212,10 @@ func prepare(sc *hx.Scratch, c caseT) (*hx.Env, string, map[string][]verT, error
 			if e.Timestamp.IsZero() {
 				return nil, "", nil, fmt.Errorf("split file list entry %q carries no upload time", e.NameWithPath)
 			}
+			if listed[apc.SplitID+"\x00"+e.NameWithPath] {
+				return nil, "", nil, fmt.Errorf("split %s lists %q twice", apc.SplitID, e.NameWithPath)
+			}
+			listed[apc.SplitID+"\x00"+e.NameWithPath] = true
 			e.Timestamp = base.Add(time.Duration(r)*time.Second + time.Duration(r)*time.Nanosecond)
 			vers[e.NameWithPath] = append(vers[e.NameWithPath], verT{split: apc.SplitID, entryT: entryT{e.Hash, e.Size}, t: e.Timestamp})
 		}
@@ -198,6 +224,13 @@ func prepare(sc *hx.Scratch, c caseT) (*hx.Env, string, map[string][]verT, error
 			return nil, "", nil, err
 		}
 		env.VMeta.RawPut(k, out)
+	}
+	// every file of every split is listed by its completed split (the stored lists are what the merge reads)
+	for k := range rank {
+		if !listed[k] {
+			sp := strings.SplitN(k, "\x00", 2)
+			return nil, "", nil, fmt.Errorf("split %s completed but its stored file lists do not hold %q", sp[0], sp[1])
+		}
 	}
 	return env, d.DiamondID, vers, nil
 }
@@ -210,7 +243,7 @@ type commitRes struct {
 }
 
 // commitWith commits on a clone under the given mode and arrival order
-func commitWith(env *hx.Env, diamondID string, mode model.ConflictMode, order []int) (commitRes, error) {
+func commitWith(env *hx.Env, diamondID string, mode model.ConflictMode, order []int, batch int) (commitRes, error) {
 	e := env.Clone()
 	v := e.Actor("commit")
 	obsCore, logs := observer.New(zapcore.DebugLevel)
@@ -226,7 +259,11 @@ func commitWith(env *hx.Env, diamondID string, mode model.ConflictMode, order []
 	}
 	done := make(chan out, 1)
 	go func() {
-		d, err := hx.Commit(v.Stores, repo, diamondID, mode, core.DiamondLogger(logger))
+		var copts []core.Option
+		if batch > 0 {
+			copts = append(copts, core.BatchSize(batch))
+		}
+		d, err := hx.CommitWith(v.Stores, repo, diamondID, mode, copts, core.DiamondLogger(logger))
 		done <- out{d, err}
 	}()
 	res := commitRes{}
@@ -493,7 +530,7 @@ func runCase(c caseT) (outcome, error) {
 	for _, mode := range modes {
 		var first *commitRes
 		for oi, order := range c.Orders {
-			r, err := commitWith(env, diamondID, mode, order)
+			r, err := commitWith(env, diamondID, mode, order, c.Batch)
 			if err != nil {
 				return out, fmt.Errorf("mode %s order %v: %v", mode, order, err)
 			}
